@@ -318,6 +318,9 @@ func FatalHead(detail string) string {
 		l = strings.TrimSpace(l)
 		if strings.HasPrefix(l, "fatal error:") || strings.HasPrefix(l, "panic:") ||
 			strings.HasPrefix(l, "runtime:") || strings.HasPrefix(l, "worker:") || strings.HasPrefix(l, "SIG") {
+			if strings.HasPrefix(l, "runtime: out of memory") {
+				return "runtime: out of memory" // the byte counts vary from run to run
+			}
 			return l
 		}
 	}
